@@ -99,6 +99,10 @@ W_Comps(t) == CASE t = "Q" -> { Sel("", "o"), Sel("", "a"), Sel("", "i"), Sel(""
 W_Inlines(t) == { "", "Q", "O", "Int", "Nope", "I" }
 SpreadAny(i, j) == TRUE
 FragsW == << [name |-> "F", on |-> "Q"], [name |-> "G", on |-> "O"] >>
+\* cycles: fragments that spread themselves or each other directly and through fields
+FragsCyc == << [name |-> "G", on |-> "O"], [name |-> "H", on |-> "O"] >>
+Cyc_Leafs(t) == IF t = "O" THEN { Sel("", "x") } ELSE {}
+Cyc_Comps(t) == CASE t = "Q" -> { Sel("", "o") } [] t = "O" -> { Sel("", "z") } [] OTHER -> {}
 
 \* F5: arguments (literal / variable / defaults), see also C05
 F5_Leafs(t) ==
